@@ -178,25 +178,45 @@ def _set_dataclass_label(class_: Class) -> None:
         class_.labels.add("dataclass")
 
 
-def _set_dataclass_init(class_: Class) -> None:
-    # Retrieve parameters from all parent dataclasses.
-    parameters = []
+def _dataclass_fields(
+    class_: Class,
+    seen: dict[Class, dict[str, tuple[Parameter, bool]]],
+) -> dict[str, tuple[Parameter, bool]]:
+    # All the fields of a class, inherited ones included, like its `__dataclass_fields__` attribute at runtime
+    # (empty when neither the class nor any of its parents is a dataclass). Fields declared by the class itself
+    # are computed (and cached) here, before the members annotated as `InitVar` get deleted.
+    if class_ in seen:
+        return seen[class_]
     try:
         mro = class_.mro()
     except ValueError:
         mro = ()  # type: ignore[assignment]
-    for parent in reversed(mro):
-        if _dataclass_decorator(parent.decorators):
-            parameters.extend(_dataclass_parameters(parent))
+    fields: dict[str, tuple[Parameter, bool]] = {}
+    if _dataclass_decorator(class_.decorators):
+        # Each parent contributes all its fields again, including the ones it inherited itself, and overrides
+        # the fields of the same name collected so far: that's how the `dataclasses` module merges them.
+        for parent in reversed(mro):
+            fields.update(_dataclass_fields(parent, seen))
+        fields.update({param.name: (param, in_init) for param, in_init in _dataclass_parameters(class_)})
+    else:
+        # Not a dataclass itself: the attribute is inherited from the first parent that has it.
+        for parent in mro:
+            if _dataclass_decorator(parent.decorators):
+                fields = _dataclass_fields(parent, seen)
+                break
+    seen[class_] = fields
+    return fields
+
+
+def _set_dataclass_init(class_: Class) -> None:
+    # Retrieve fields from all parent dataclasses, and from the class itself.
+    fields = _dataclass_fields(class_, {})
 
     # If the class is not decorated with `@dataclass`, skip it.
     if not _dataclass_decorator(class_.decorators):
         return
 
     logger.debug("Handling dataclass: %s", class_.path)
-
-    # Add current class parameters.
-    parameters.extend(_dataclass_parameters(class_))
 
     # With `@dataclass(init=False)` no `__init__` method is generated. The fields are still inherited
     # by subclasses that are dataclasses: they were computed (and cached) above, before the members
@@ -212,7 +232,7 @@ def _set_dataclass_init(class_: Class) -> None:
         parent=class_,
         parameters=Parameters(
             Parameter(name="self", annotation=None, kind=ParameterKind.positional_or_keyword, default=None),
-            *_reorder_parameters(parameters),
+            *_reorder_parameters(list(fields.values())),
         ),
         returns="None",
     )
